@@ -11,7 +11,7 @@ assert src.count(old) == 1, f"pattern occurs {src.count(old)} times"
 try:
     open(path, "w").write(src.replace(old, new))
     for prop in props.split(","):
-        r = subprocess.run(["/verif/check", prop, tier], capture_output=True, text=True)
+        r = subprocess.run(["/verif/check", prop, tier], capture_output=True, text=True, env=dict(__import__("os").environ, VERIF_EVIDENCE_DIR="/verif/.work/evidence-scratch"))
         lines = r.stdout.strip().splitlines()
         v = [l for l in lines if l.startswith("VIOLATION")]
         print(f"[{prop}] exit={r.returncode} violations={len(v)}")
